@@ -45,6 +45,7 @@ PROPS = {
             R("h23", "c20", "TestC20_URLRoundTrip", (40000, 4), (3000000, 16, 3000)),
             R("h23", "c20", "TestC20_Forms", (10000, 1), (300000, 4, 3000)),
             R("h23", "c20", "TestC20_Helpers", (20000, 2), (1000000, 8, 3000)),
+            R("h26", "c20w", "TestC20_EndToEnd", (800, 4, 600), (5000, 8, 3000)),
         ],
     },
     "C11": {
